@@ -30,6 +30,12 @@ CLAIMED = {
  'C20': dict(text="Exhaustive: TLC enumerates all 125 + 625 index tuples and the 16 Grid tags plus unknown tags; pyerrors.dirac is evaluated on each and DiracTrace.tla decides with Dirac.tla (permutation sign by inversion count / rejection outside the domain; every tag = stated product or commutator of the dumped base matrices; Clifford algebra, Hermiticity, gamma5 = product and anticommuting, on the dumped arrays in exact Gaussian-rational arithmetic). K_n(obs) for n = 0..6 on an x grid: value and every fluctuation against -(K_{n-1}+K_{n+1})/2 from the kernel's integral representation; 29 re-exported special functions: propagated fluctuation against the 3-level Richardson derivative of the function's own scipy values at 1e-6.",
              note="Trusted: TLC, kernel (K_n by trapezoidal rule on the integral representation), scipy's function VALUES for the Richardson oracle.",
              technique="exhaustive TLC enumeration replayed into the code + TLA+ algebra on dumped tables; trace validation for derivatives", ref="6 C20"),
+ 'C14': dict(text="CorrOps.tla specifies correlator arithmetic entry-wise through Expr (value and analytic gradient per timeslice), propagation of undefined slices, NaN -> undefined, and every index transformation as an explicit map. MC_Corr: TLC checks the algebra on all pairs of masks (T=4 quick, T=6 thorough): mask union, commutativity, roll/reverse/thin/symmetrisation/Hankel laws. TLC enumerates every pattern of undefined timeslices (T=4,5 quick: 46 patterns; T=2..8 thorough); for each, real correlators are built and every operator x partner kind (Corr, Obs, CObs, int, float, complex) x operand order, 17 functions, all index methods with argument grids, matrix (N=2,3) and complex content run through pyerrors; CorrTrace.tla recomputes every entry (value and each fluctuation) and compares masks, T, N; frame events compare projections of operands/arguments before/after and two invocations.",
+             note="Trusted: TLC, kernel, corrproj projection. All observables on one 6-configuration chain (alignment is C01). Known finding (open): x ** Corr / Corr ** Corr raise TypeError.",
+             technique="TLA+ spec of correlator algebra model-checked by TLC; TLC-enumerated masks replayed; trace validation", ref="6 C14"),
+ 'C15': dict(text="CorrDerived.tla gives, per variant, the referenced timeslice offsets and the formula as an Expr tree (deriv: symmetric/forward/backward/improved/log; second_deriv: symmetric/big_symmetric/improved/log; m_eff: log/logsym/arccosh by formula, cosh/periodic/sinh by root equation + inverse-function rule; plateau by weighted mean). An output slice is defined iff all referenced slices are and the formula is real. MC_Corr proves the definedness law for all masks on the spec. For every TLC-enumerated mask (T=4,6 quick: 78 patterns; T=4..10 thorough) all variants are computed by pyerrors on positive and sign-changing data and compared entry-wise (value, every fluctuation, set of defined slices).",
+             note="Trusted: TLC, kernel. Root variants driven with solvable data; sinh middle-slice convention mirrored.",
+             technique="TLA+ formulas over referenced timeslices; TLC-enumerated masks replayed; trace validation", ref="6 C15"),
 }
 PENDING = {}
 props = [json.loads(l) for l in open(os.path.join(V, 'properties.jsonl'))]
